@@ -171,14 +171,17 @@ def stream_urls(run, rng, n):
 PRE_FETCH = HDR + 'Require Import WV.model.C20Fetch.\n'
 EXC_OK = ['OSError', 'ValueError', 'KeyError', 'TimeoutError', 'FileNotFoundError', 'ConnectionResetError', 'RuntimeError',
           'AssertionError', 'ZeroDivisionError', 'EOFError', 'LookupError', 'TypeError', 'AttributeError', 'MemoryError',
-          'RecursionError', 'StopIteration', 'UnicodeError', '_MyErr', 'NotImplementedError']
+          'RecursionError', 'StopIteration', 'UnicodeError', '_MyErr', 'NotImplementedError', 'IncompleteRead', 'zliberror']
 EXC_BASE = ['KeyboardInterrupt', 'SystemExit', 'GeneratorExit']
-CONSUMERS = ['image', 'link-sheet', 'import-sheet', 'font-src', 'attachment']
+# the stream errors fetch() converts: OSError and its subclasses, EOFError, http.client.HTTPException, zlib.error
+EXC_IO = ['OSError', 'TimeoutError', 'FileNotFoundError', 'ConnectionResetError', 'EOFError', 'IncompleteRead', 'zliberror']
+CONSUMERS = ['image', 'link-sheet', 'import-sheet', 'font-src', 'attachment', 'svg-use']
 MIMES = ['absent', None, 'text/css', 'image/png', 'text/html', 'font/otf']
 
 
 def coq_exn(cls):
-    return '{| e_name := %s; e_msg := "boom"; e_is_exception := %s |}' % (slit8(cls), blit(cls not in EXC_BASE))
+    return '{| e_name := %s; e_msg := "boom"; e_is_exception := %s; e_is_io := %s |}' % (
+        slit8(cls), blit(cls not in EXC_BASE), blit(cls in EXC_IO))
 
 
 def coq_fret(fr):
@@ -204,7 +207,7 @@ def coq_event(e):
 
 def gen_frets(rng, n):
     out = []
-    for k in range(5):
+    for k in range(6):
         for cls in EXC_OK + EXC_BASE:
             out.append({'consumer': k, 'fret': {'t': 'raise', 'cls': cls}})
         for v in ['none', 'list', 'str', 'int']:
@@ -214,11 +217,11 @@ def gen_frets(rng, n):
             out.append({'consumer': k, 'fret': {'t': 'dict', 'mime': mime}})                       # no data key at all
             out.append({'consumer': k, 'fret': {'t': 'dict', 'string': True, 'mime': mime,
                                                 'file': {'read': 'ok'}}})                            # both keys
-            for rd in ['ok', 'OSError', 'TimeoutError', 'EOFError', 'KeyboardInterrupt', 'ValueError']:
+            for rd in ['ok', 'OSError', 'TimeoutError', 'EOFError', 'KeyboardInterrupt', 'ValueError', 'IncompleteRead', 'zliberror']:
                 for cr in (False, True):
                     out.append({'consumer': k, 'fret': {'t': 'dict', 'mime': mime, 'file': {'read': rd, 'close_raises': cr}}})
     while len(out) < n:
-        k = rng.randrange(5)
+        k = rng.randrange(6)
         fr = {'t': 'dict', 'mime': rng.choice(MIMES)}
         if rng.random() < 0.5:
             fr['string'] = True
@@ -232,7 +235,8 @@ def gen_frets(rng, n):
     return out
 
 
-KNOWN_ESCAPE_SIG = 'fetch-body-read-error-escapes'
+# F98 is repaired for the stream errors; an Exception of another class raised by read() still escapes
+KNOWN_ESCAPE_SIG = 'fetch-body-read-other-error-escapes'
 
 
 def stream_consume(run, rng, n):
@@ -266,8 +270,8 @@ def stream_consume(run, rng, n):
                     {'stream': 'consume-direct', 'case': c, 'impl': o}, signature=sig)
         run.count('consume-direct', len(kept), [(c['consumer'], json.dumps(c['fret'], sort_keys=True)) for c, _ in kept],
                   samples=[{'case': kept[3][0], 'impl': kept[3][1]}])
-        run.stream_info('consume-direct', rule='5 consumers (get_image_from_uri, find_stylesheets link, @import, add_font_face, '
-                        'write_pdf_attachment) x fetchers that raise each of %d exception classes (3 outside Exception), return '
+        run.stream_info('consume-direct', rule='6 consumers (get_image_from_uri, find_stylesheets link, @import, add_font_face, '
+                        'write_pdf_attachment, svg get_use_tree) x fetchers that raise each of %d exception classes (3 outside Exception), return '
                         'a non-dict, or a dict with/without string, file_obj (read ok / raising / close raising), mime_type '
                         'absent/None/values, redirected_url' % len(EXC_OK + EXC_BASE),
                         escapes=sum(1 for _, o in kept if o['code'] == 2))
@@ -639,6 +643,8 @@ class DocGen:
             k = rng.choice(['img', 'img', 'object', 'bg', 'lsi', 'content'])
             if k in ('img', 'object'):
                 im.update(t=k, id=next(self.ids), alt=rng.choice(['ALT', 'ALT', '', None]) if k == 'img' else None)
+                if k == 'img' and rng.random() < 0.4:
+                    im['orient'] = 1           # image-orientation: 90deg - a cache key of its own
                 items.insert(rng.randrange(len(items) + 1), im)
             else:
                 im.update(t=k, id=next(self.ids))
@@ -720,7 +726,7 @@ def coq_doc(d):
         elif t == 'style':
             items.append('IStyle %s' % coq_sitems(it['kids']))
         elif t in ('img', 'object', 'embed'):
-            items.append('IImage %s %d %s %s' % (KIND[t], it['id'], coq_oref(it), coq_alt(it.get('alt'))))
+            items.append('IImage %s %d %s %s %d%%nat' % (KIND[t], it['id'], coq_oref(it), coq_alt(it.get('alt')), it.get('orient', 0)))
         elif t in ('attlink', 'attanchor', 'attopt'):
             if not it.get('removed'):
                 items.append('IAttach %s %d %s' % ({'attlink': 'ALink', 'attanchor': 'AAnchor', 'attopt': 'AOption'}[t], it['id'], coq_ref(it['ref'])))
@@ -807,6 +813,7 @@ def observed_codes(gen, d, res):
     for a, e in gen.world.items():
         if e['kind'] == 'image' and e['fmt'] != 'svg':
             size_to_url[(2 + e['n'], 3)] = a
+            size_to_url[(3, 2 + e['n'])] = a          # the same image with image-orientation: 90deg
     for w, h in res['pdf']['images']:
         if (w, h) in size_to_url:
             codes.add((7, 0, size_to_url[(w, h)]))
@@ -836,9 +843,9 @@ def remove_urls(d, urls):
 
     def vis(kids):
         for v in kids:
+            if v['abs'] in urls:
+                v['removed'] = True
             if v['t'] == 'svgimage':
-                if v['abs'] in urls:
-                    v['removed'] = True
                 vis(v.get('kids', []))
 
     def sheet(kids):
@@ -898,13 +905,13 @@ def failure_sets(rng, gen, thorough):
 
     def mode_for(u, m=None):
         kind = gen.world[u]['kind']
-        if kind in ('attach', 'use'):
+        if kind == 'attach':
             return 'raise'
         return m or rng.choice(MODES)
     sets = [{}]
     for u in urls:                                     # each single failure
         if thorough:
-            for m in (MODES if gen.world[u]['kind'] not in ('attach', 'use') else ['raise']):
+            for m in (MODES if gen.world[u]['kind'] != 'attach' else ['raise']):
                 sets.append({u: m})
         else:
             sets.append({u: mode_for(u)})
@@ -958,6 +965,9 @@ def expected_log_problems(gen, fails, res):
         elif kind == 'font':
             if not any(u in t for _, t in dbg) and not any('cannot be loaded' in t for _, t in msgs):
                 bad.append(('font failure not logged (not even at DEBUG)', u, m))
+        elif kind == 'use':
+            if not any(u in t and 'Failed to load SVG' in t for _, t in msgs):
+                bad.append(('external <use> failure not logged', u, m))
         elif kind == 'attach':
             n_att_fail += res['calls'].count(u)
     if n_att_fail and sum(1 for _, t in msgs if 'Failed to load attachment' in t) < 1:
@@ -1014,12 +1024,6 @@ def stream_docs(run, rng, ndocs, thorough=False):
             continue
         if r1['exc'] or r2['exc']:
             e = r1['exc'] or r2['exc']
-            if e['type'] == 'FileNotFoundError' and opts.get('cache_mode') == 'folder-shared' and e['stage'] == 'second' \
-                    and not any(hashlib.md5(u.encode()).hexdigest() in e['msg'] for u in gen.order):
-                # a bytes file of the folder vanished: DiskCache.__del__ of another instance (open C19 finding F144)
-                fail_once(('f144',), 'shared cache folder: %s' % e['msg'], dict(data, exc=e),
-                          signature='c19:diskcache-del-removes-shared-folder')
-                continue
             fail_once(('exc', e['type'], e['site']), 'render with failing fetches %s raised %s at %s during %s: %s' % (
                 sorted(set(f.values())), e['type'], e['site'], e['stage'], e['msg']), dict(data, exc=e),
                 signature='crash:%s:%s' % (e['type'], e['site']))
@@ -1057,8 +1061,7 @@ def stream_docs(run, rng, ndocs, thorough=False):
         if lb:
             fail_once(('log', lb[0][0]), '%s: %s (%s)' % lb[0], dict(data, logs=r1['logs']), signature='failure-not-logged')
         # (d) streams handed out are closed (the external <use> call site is a listed finding of its own)
-        use_urls = {a for a, e in gen.world.items() if e['kind'] == 'use'}
-        unclosed = [u for u in r1['opened'] if u not in r1['closed'] and u not in use_urls]
+        unclosed = [u for u in r1['opened'] if u not in r1['closed']]
         if unclosed:
             fail_once(('unclosed',), 'file_obj of %s never closed' % unclosed[:3], data, signature='file-obj-not-closed')
         # (e) nothing opened behind the fetcher's back
@@ -1072,9 +1075,9 @@ def stream_docs(run, rng, ndocs, thorough=False):
         # two renders with the same dict / DiskCache instance / folder
         if 'calls_second' in r1:
             mode = opts.get('cache_mode')
-            again = [u for u in r1['calls_second'] if gen.world.get(u, {}).get('kind') == 'image']
+            again = [u for u in r1['calls_second'] if gen.world.get(u, {}).get('kind') in ('image', 'use')]
             if mode in ('dict', 'diskcache') and again:
-                fail_once(('cache2',), 'image %s fetched again although the shared %s cache holds it' % (again[:2], mode), data,
+                fail_once(('cache2',), 'image or external <use> %s fetched again although the shared %s cache holds it' % (again[:2], mode), data,
                           signature='cache-not-used')
             if mode == 'folder-shared' and sorted(r1['calls_second']) != sorted(r1['calls']):
                 fail_once(('cache2f',), 'second render on the same cache folder requests %s, the first one %s' % (
@@ -1116,12 +1119,14 @@ def stream_docs(run, rng, ndocs, thorough=False):
 
 PROBES = [
     # (case, signature of the listed open finding it exhibits on the unchanged tree | None = must hold)
-    ({'name': 'lazy-local'}, 'lazy-local-image-rereads-file'),
-    ({'name': 'xhtml-image', 'mime': 'text/html'}, 'xml-nonsvg-accepted-as-svg-image'),
+    ({'name': 'lazy-local'}, None),                     # F9 fixed
+    ({'name': 'lazy-local-redirect'}, None),
+    ({'name': 'xhtml-image', 'mime': 'text/html'}, None),                  # F99 fixed
+    ({'name': 'xhtml-image', 'mime': 'image/svg+xml'}, None),
     ({'name': 'svg-style-import'}, None),               # F100 fixed: must hold
-    ({'name': 'svg-use-external'}, 'svg-use-external-raw-fetcher-call'),
+    ({'name': 'svg-use-external'}, None),               # F101 fixed
     ({'name': 'css-import-cycle'}, None),               # F102 fixed: must hold
-    ({'name': 'gzip-truncated-body'}, 'fetch-body-read-error-escapes'),
+    ({'name': 'gzip-truncated-body'}, None),            # F98 fixed
     ({'name': 'redirected-sheet-base'}, None),
     ({'name': 'no-base-url'}, None),
     ({'name': 'default-fetcher-not-used'}, None),
@@ -1142,8 +1147,8 @@ def stream_probes(run, rng, n=None):
         else:
             held += 1
     run.count('probes', len(PROBES), [json.dumps(c, sort_keys=True) for c, _ in PROBES], samples=[PROBES[0][0]])
-    run.stream_info('probes', rule='one hand-made situation each: the four open findings (file: image re-read at write time, XHTML as '
-                    'image, external <use>, truncated gzip body), SVG @import and import cycle (fixed: must hold), redirected sheet base, no base URL, '
+    run.stream_info('probes', rule='one hand-made situation each: the six repaired findings (file: image re-read at write time, XHTML as '
+                    'image, external <use>, truncated gzip body, SVG @import, import cycle: all must hold), redirected sheet base, no base URL, '
                     'a fetcher that serves nothing (no fallback to urllib/files), damaged image bodies x 5 option sets', held=held)
 
 
